@@ -68,14 +68,21 @@ class Port:
         return (raw, v[self.first], v[self.last], praw)
 
 
+_PAR_BYTES = (0x1D, 0xA2, 0x47, 0xE8, 0x3B, 0xC4, 0x59, 0x96)
+
+
 def par_raw(par, bits):
-    """param index -> raw param bits: 0 -> 0101.., 1 -> 1010.. (differs from both idle-garbage patterns when bits >= 2)"""
+    """param index -> raw param bits.  Index 0: the low `bits` bits of the byte sequence 1D A2 47 E8 .. (every byte and every
+    nibble different, so byte swaps, exchanged fields and exchanged halves change the value; 01 for two bits), index 1: its
+    complement.  Both differ from the all-zeros / all-ones idle patterns when bits >= 2."""
     if bits == 0:
         return 0
     pat = 0
-    for k in range(bits):
-        if (k + par) & 1:
-            pat |= 1 << k
+    for k in range((bits + 7)//8):
+        pat |= _PAR_BYTES[k % 8] << (8*k)
+    pat &= (1 << bits) - 1
+    if par & 1:
+        pat ^= (1 << bits) - 1
     return pat
 
 
@@ -265,6 +272,14 @@ class StreamHarness(Harness):
             self.cap = cap
         self.hs = set()
         self.maxq = 0
+        self.tolerant = False
+
+    def set_tolerant(self):
+        """second pass of a C04 run on a design whose data path already violates C03/C16: scoreboard errors are not fatal
+        (the explorer does not extend violating transitions, so they would hide every stall behind them); only the
+        monitors that do not depend on the scoreboard stay armed: stability and the handshake-level dead-lock query."""
+        self.tolerant = True
+        self.live_queries = tuple(q for q in self.live_queries if q[0] == "live.deadlock")
 
     def build(self):
         self.dut = self.factory()
@@ -372,10 +387,16 @@ class StreamHarness(Harness):
             tok = (self.alphabet[i], first, last, par_raw(p, S.parbits))
             if hold is None and err is None:
                 mon, err = self.model.offer(mon, tok)
+                if err is not None and self.tolerant:        # scoreboard overflow: forget the oldest expectation
+                    mon, err = mon[:1] + (mon[1][-self.model.capacity:],) + mon[2:], None
         if out_hs and err is None:
             mon, err = self.model.out(mon, got)
+            if err is not None and self.tolerant:            # wrong / unexpected output: consume one expectation, go on
+                mon, err = mon[:1] + (mon[1][1:],) + mon[2:], None
         if hasattr(self.model, "cycle") and err is None:
             mon, err = self.model.cycle(mon, v, tok, bool(in_hs), bool(out_hs), cc, self)
+            if err is not None and self.tolerant:
+                err = None
         if err is not None:
             return env, err, 0
         if len(mon[1]) > self.maxq:
@@ -447,6 +468,12 @@ class MultiStreamHarness(Harness):
                 q.append((f"live.starve.m{i}", COOP | (WAITBIT << i), SERVEDBIT << i, (),
                           f"producer {i} offers forever and is never served although everybody cooperates"))
         self.live_queries = tuple(q) if liveness else ()
+        self.tolerant = False
+
+    def set_tolerant(self):
+        """see StreamHarness.set_tolerant: routing-oracle errors are not fatal, stability and the liveness queries (which
+        only use handshakes here) stay armed."""
+        self.tolerant = True
 
     def build(self):
         self.dut = self.factory()
@@ -526,7 +553,10 @@ class MultiStreamHarness(Harness):
             stalls2.append(got if (ov and not r) else None)
         self.hs.add((tuple(o is not None for o in offers), tuple(in_hs), tuple(o[0] for o in outs), tuple(rdys)))
         if err is None:
+            mon0 = mon
             mon, err = self.oracle.cycle(mon, offers, in_hs, outs, out_hs, cc, self)
+            if err is not None and getattr(self, "tolerant", False):
+                mon, err = mon0, None
         if err is not None:
             return env, err, 0
         prods2 = []
